@@ -795,6 +795,8 @@ func c13CodecCase(c *core.Ctx, part int) {
 	r := c.Rand()
 	alpha := []string{"", "a", "b", "ab", "\x00", "\x01a", "\x02"}
 	seen := map[string][]string{}
+	var heldKey []byte
+	var heldList []string
 	check := func(l []string) {
 		enc, err := boltz.EncodeStringSlice(l)
 		c.Eval()
@@ -818,6 +820,13 @@ func c13CodecCase(c *core.Ctx, part int) {
 			c.Violationf("C13 compound key: two lists share an encoding", short(l), "%s and %s both encode to %x", short(prev), short(l), trunc(enc))
 		}
 		seen[string(enc)] = l
+		// a key stays what it is while later keys are encoded (callers keep several: a range of keys, both sides of a link)
+		if heldKey != nil {
+			if dec, err := boltz.DecodeStringSlice(heldKey); err != nil || !reflect.DeepEqual(normNil(dec), normNil(heldList)) {
+				c.Violationf("C13 compound key: an encoded key changed when another list was encoded", short(heldList), "the key of %s now decodes to %s (err=%v) after %s was encoded", short(heldList), short(dec), err, short(l))
+			}
+		}
+		heldKey, heldList = enc, l
 		// DecodeNext walks the same elements
 		rest := enc
 		for i := 0; len(rest) > 0; i++ {
